@@ -24,6 +24,9 @@ REQUIRED_CLASSES = ["nontrivial", "vertex_in_first_3", "vertex_in_last_3", "vert
 QUICK_SHARDS = 4
 
 ebb_calc = sut.load("ebb_calc")
+OPTION_PROBES = [(ebb_calc.max_rate_t3, ["time", "rate", "accel", "jerk"], [41, 100000000, -100000000, 5000000]),
+                 (ebb_calc.rate_t3, ["time", "rate", "accel", "jerk"], [41, 100000000, -100000000, 5000000])]
+
 
 
 def body(ctx, case):
